@@ -158,7 +158,8 @@ def mutants():
                 meta = json.load(open(mp))
                 out.append({"id": "seeded-" + name, "prop": meta["property"], "kind": "seeded", "patch": pp,
                             "what": meta.get("summary", ""), "base_commit": meta.get("base_commit"),
-                            "checks": meta.get("checks"), "apply_to_base": meta.get("apply_to_base")})
+                            "checks": meta.get("checks"), "apply_to_base": meta.get("apply_to_base"),
+                            "expected_missed": meta.get("expected_missed"), "note": meta.get("note")})
     return out
 
 
@@ -168,6 +169,7 @@ def main():
     cross = os.environ.get("VERIF_SENS_CROSS")  # also run the other properties' checks (false-alarm view)
     results = []
     bad = 0
+    gaps = 0
     for m in mutants():
         if sel and m["id"] not in sel and m["prop"] not in sel:
             continue
@@ -213,12 +215,17 @@ def main():
                 by = other
             if caught and by != m["prop"]:
                 lines = [f"(caught by {by}) " + (lines[0] if lines else "")] + lines[1:]
+            gap = bool(m.get("expected_missed")) and not caught
             results.append(dict(id=m["id"], prop=m["prop"], kind=m["kind"], what=m["what"], exit=code,
-                                caught=caught, wall_s=wall, lines=lines[:4]))
-            print(f"sensitivity {m['id']:45s} {m['prop']}: {'CAUGHT' if caught else 'MISSED (exit %d)' % code} "
+                                caught=caught, wall_s=wall, lines=lines[:4],
+                                known_gap=(m.get("note") if gap else None)))
+            verdict = "CAUGHT" if caught else ("MISSED - KNOWN GAP" if gap else "MISSED (exit %d)" % code)
+            print(f"sensitivity {m['id']:45s} {m['prop']}: {verdict} "
                   f"in {wall}s  {lines[0][:140] if lines else ''}", flush=True)
-            if not caught:
+            if not caught and not gap:
                 bad += 1
+            if gap:
+                gaps += 1
             if cross:
                 from . import campaign as campaign_mod
                 from . import campaigns  # noqa: F401
@@ -234,6 +241,7 @@ def main():
             shutil.rmtree(d, ignore_errors=True)
     os.makedirs(os.path.join(VERIF, "evidence"), exist_ok=True)
     with open(os.path.join(VERIF, "evidence", "selftest.json"), "w") as f:
-        json.dump({"sensitivity": results, "missed": bad}, f, indent=1)
-    print(f"sensitivity: {len(results) - bad}/{len(results)} mutants caught")
+        json.dump({"sensitivity": results, "missed": bad, "known_gaps": gaps}, f, indent=1)
+    print(f"sensitivity: {len(results) - bad - gaps}/{len(results)} mutants caught"
+          + (f", {gaps} known gap(s) (see seeded/<name>/meta.json 'note')" if gaps else ""))
     return 0 if not bad else 2
